@@ -153,6 +153,12 @@ def shape_family(shape) -> str:
     return "stored" if shape.startswith("stored") else shape
 
 
+def rebinding_r(shape) -> tuple:
+    """The values of the parameter r for which the shape's rebinding statement `x = y` is executed."""
+    rb = shape.partition("+rebind-")[2]
+    return {"else": (False,), "except": (False,), "all": (False, True)}.get(rb, (True,))
+
+
 def shape_rebinds(shape) -> bool:
     return shape is not None and "+rebind-" in shape
 
@@ -419,7 +425,9 @@ def check_batch(ctx, batch) -> None:
             f = getattr(ins.module, f"f{i}")
             taken = {0: [], 1: []}
             # argument tuples: (x,) - or, when the shape rebinds x from y on the paths selected by r, (x, y, r)
-            calls = [(it,) for it in inh] if not rebinds else [(it, y, r) for it in inh for r in (False, True) for y in inh]
+            # (every y when r selects the rebinding path, one y when it selects the path that leaves x alone)
+            calls = [(it,) for it in inh] if not rebinds else [(it, y, r) for it in inh for r in (False, True)
+                                                               for y in (inh if r in rebinding_r(shape) else inh[:1])]
             for call in calls:
                 it = call[0]
                 if c.eq_lits and (cross_type_equal(it.obj, c.eq_lits) or has_user_eq(it.obj)):
@@ -577,6 +585,42 @@ def carries_constraint(okval) -> bool:
         return False
 
 
+PROMOTION_REMAINDER_KEY = "numeric-promotion|remainder-of-a-failed-isinstance-is-a-union-that-the-next-constraint-of-a-stored-chain-drops"
+
+
+def _numeric_tower_classes(t) -> list:
+    """[(class, under_type)] for float/complex mentioned in t, also inside type[...]."""
+    if t is None:
+        return []
+    if t.kind == "Union":
+        return [x for m in t.args for x in _numeric_tower_classes(m)]
+    if t.kind == "TypeOf":
+        return [(k, True) for k, _ in _numeric_tower_classes(t.args[0])]
+    if t.kind == "Cls" and t.extra in (float, complex):
+        return [(t.extra, False)]
+    return []
+
+
+def promoted_numeric_failing_isinstance(o, v: Ty, tested) -> bool:
+    """o belongs to a declared float/complex only through the numeric promotion (an int where float is declared, an int
+    or float where complex is declared; or those classes under type[...]) and fails a tested isinstance()/issubclass()
+    against float/complex: pyanalyze keeps it as the union `float | int` left by the failed check, and - when the
+    condition was stored as an and/or chain - hands that union unflattened to the next constraint, which drops it."""
+    for d, under_type in _numeric_tower_classes(v):
+        for k, k_under_type in _numeric_tower_classes(tested):
+            if under_type != k_under_type:
+                continue
+            try:
+                if under_type:
+                    if isinstance(o, type) and issubclass(o, (int, float)) and not issubclass(o, d) and not issubclass(o, k):
+                        return True
+                elif isinstance(o, (int, float)) and not isinstance(o, d) and not isinstance(o, k):
+                    return True
+            except Exception:  # noqa: BLE001
+                pass
+    return False
+
+
 def lost_key(c, tag, o, v: Ty, t: Ty, shape=None, okval=None) -> str:
     prims = set(prim_kinds(c.kind).split("+"))
     if prims & TRUTHY_KINDS and nominally_always_true(o, v):
@@ -587,6 +631,8 @@ def lost_key(c, tag, o, v: Ty, t: Ty, shape=None, okval=None) -> str:
     # the condition's value is a union whose members each carry it, once per visit of a loop body
     if okval is not None and t.kind == "Never" and (condition_carried_by_each_union_member(okval) or shape in LOOPS and carries_constraint(okval)):
         return STORED_CONDITION_KEY
+    if okval is not None and condition_carried_by_each_union_member(okval) and promoted_numeric_failing_isinstance(o, v, c.tested):
+        return PROMOTION_REMAINDER_KEY
     return f"lost|{shape_prefix(shape)}{prim_kinds(c.kind)}|{'pos' if tag else 'neg'}|{type(o).__name__}|narrowed:{tkind(t)}"
 
 
